@@ -465,6 +465,9 @@ func parentOwns(fn *ssa.Function, parent, recv ssa.Value) (bool, string) {
 				return
 			}
 			fromFresh := false
+			if l, ok := st.Val.(*ssa.UnOp); ok && l.Op == token.MUL && l.X == ssa.Value(fresh) {
+				fromFresh = true // the node itself is copied out (Sources would look through a whole-value initialisation of it)
+			}
 			for _, s := range Sources(st.Val) {
 				if s == ssa.Value(fresh) {
 					fromFresh = true
